@@ -66,7 +66,9 @@ Meths == CASE Family = "args" -> {NoMeth, MethStr("ffill"), MethList(<<"ffill">>
            [] OTHER           -> {NoMeth, MethList(<<"ffill">>)}
 
 Hows == {"ij", "oj", "lj", "rj"}
-Pol(h) == [how |-> h, t |-> <<>>]
+Pol(h) == IF h = "ex1" THEN [how |-> "ex", t |-> <<>>, slot |-> 1]         \* the explicit index = the caller's object of slot 1
+          ELSE IF h = "ex3" THEN [how |-> "ex", t |-> <<>>, slot |-> 3] ELSE [how |-> h, t |-> <<>>]
+HowsX == Hows \cup {"ex1", "ex3"}
 CallStep(api, how, cols) == [op |-> "call", api |-> api, pol |-> Pol(how), cols |-> ColPol(cols)]
 HasFrames == \E i \in 1..Len(heap.ops) : IsF(heap.ops[i])
 \* the calls of the family (frames: the column policy matters and df_sync / presync take it)
@@ -74,14 +76,14 @@ Calls == CASE Family = "args"   -> {CallStep(a, "oj", "ij") : a \in {"sync", "re
            [] Family = "frames" -> {CallStep(a, h, c) : a \in {"sync", "presync"}, h \in {"ij", "rj"}, c \in Hows}
            [] Family = "mix"    -> IF HasFrames THEN {CallStep(a, h, c) : a \in {"sync", "presync"}, h \in {"oj", "rj"}, c \in {"ij", "rj", "lj"}}
                                                     \cup {CallStep("reindex", h, "ij") : h \in Hows}
-                                   ELSE {CallStep(a, h, "ij") : a \in {"sync", "reindex", "presync", "index"}, h \in Hows}
-           [] OTHER             -> {CallStep(a, h, "ij") : a \in {"sync", "reindex", "presync", "index"}, h \in Hows}
+                                   ELSE {CallStep(a, h, "ij") : a \in {"sync", "reindex", "presync", "index"}, h \in HowsX}
+           [] OTHER             -> {CallStep(a, h, "ij") : a \in {"sync", "reindex", "presync", "index"}, h \in (IF Family = "edit" THEN Hows \cup {"ex1"} ELSE HowsX)}
 \* (df_index takes no method: only in sessions without one, so that a session is not printed twice)
 CallOk(st) == st.api = "index" => (heap.meth = NoMeth \/ Family \in {"edit", "mix"})
 \* a call that collides with an earlier one on whatever a memo could be keyed on: the same call again, the same policy
 \* through another entry point, the same entry point under the mirrored policy
 NextApi(a) == CASE a = "sync" -> "presync" [] a = "presync" -> "reindex" [] a = "reindex" -> "index" [] a = "index" -> "sync"
-Mirror(h) == CASE h = "ij" -> "oj" [] h = "oj" -> "ij" [] h = "lj" -> "rj" [] h = "rj" -> "lj"
+Mirror(h) == CASE h = "ij" -> "oj" [] h = "oj" -> "ij" [] h = "lj" -> "rj" [] h = "rj" -> "lj" [] h = "ex" -> "oj"
 Colliding(c) == {c, [c EXCEPT !.api = NextApi(c.api)], [c EXCEPT !.pol = Pol(Mirror(c.pol.how))]}
 LastCall == LET cs == SelectSeq(hist, IsCall) IN cs[Len(cs)]
 
@@ -114,22 +116,21 @@ Emit == (Len(hist) = Depth /\ IsCall(hist[Depth])) => PrintT(ToJson([heap |-> he
 NextGen == Next /\ Emit'
 
 \* ---- invariants ----------------------------------------------------------------------------------
-Law(h) == [hw \in Hows |-> SyncX(TreeOf(h), Pol(hw), MethOf(h.meth), ColPol("ij"), "row")]
+LawFor(h, hw) == SyncX(TreeOf(h), Pol(hw), MethOf(h.meth), ColPol("ij"), "row")
+H0 == [ops |-> heap0.ops, cont |-> heap0.cont, meth |-> heap0.meth]
 \* the bookkeeping of SyncSess!HeapAfter is this state machine
-HeapIsHistory == heap = HeapAfter([ops |-> heap0.ops, cont |-> heap0.cont, meth |-> heap0.meth], hist, Len(hist))
+HeapIsHistory == heap = HeapAfter(H0, hist, Len(hist))
 \* calls (and edits of a result) leave the heap alone: the heap is a function of the caller's own edits only
-CallsOwnNothing == LET edits == SelectSeq(hist, LAMBDA st : st.op \notin {"call", "resedit"}) IN
-                   heap = HeapAfter([ops |-> heap0.ops, cont |-> heap0.cont, meth |-> heap0.meth], edits, Len(edits))
-\* every timeseries of the collection ends on the joint index OF THE INDICES THE OPERANDS HAVE NOW
-OnCurrentIndex == \A hw \in Hows :
-                      LET tr == TreeOf(heap)  ins == TsLeaves(tr)  outs == TsLeaves(Law(heap)[hw]) IN
-                      ins # <<>> => \A i \in 1..Len(outs) : Times(outs[i]) = Joint(hw, [j \in 1..Len(ins) |-> Times(ins[j])])
+CallsOwnNothing == LET edits == SelectSeq(hist, LAMBDA st : st.op \notin {"call", "resedit"}) IN heap = HeapAfter(H0, edits, Len(edits))
+\* every timeseries of the collection ends on the joint index OF THE INDICES THE OPERANDS HAVE NOW, and
 \* one object placed twice comes back equal at both places
-SameObjectSameResult == \A hw \in Hows :
-                            LET rs == Refs(heap.cont)  outs == TsLeaves(Law(heap)[hw]) IN
-                            \A i, j \in 1..Len(rs) : rs[i] = rs[j] => outs[i] = outs[j]
-\* the spelling of the method (str / list / tuple) is no part of the outcome
-SpellingIrrelevant == \A ty \in {"str", "list", "tuple"} : heap.meth.v # <<>> => Law([heap EXCEPT !.meth.ty = ty]) = Law(heap)
+OnCurrentIndex == \A hw \in Hows :
+                      LET ins == TsLeaves(TreeOf(heap))  outs == TsLeaves(LawFor(heap, hw))  rs == Refs(heap.cont) IN
+                      /\ ins # <<>> => \A i \in 1..Len(outs) : Times(outs[i]) = Joint(hw, [j \in 1..Len(ins) |-> Times(ins[j])])
+                      /\ \A i, j \in 1..Len(rs) : rs[i] = rs[j] => outs[i] = outs[j]
+\* the spelling of the method (str / list / tuple) is no part of the outcome; an emptied list is no method
+SpellingIrrelevant == /\ \A ty \in {"str", "list", "tuple"} : MethOf([heap.meth EXCEPT !.ty = ty]) = MethOf(heap.meth)
+                      /\ heap.meth.v = <<>> => LawFor(heap, "oj") = LawFor([heap EXCEPT !.meth = NoMeth], "oj")
 \* "last" is the last PLACE of the collection, whatever objects sit at the other places
 LastIsLastPlace == LET ins == TsLeaves(TreeOf(heap)) IN
                    ins # <<>> => /\ IndexOf(TreeOf(heap), Pol("rj")) = Times(heap.ops[Refs(heap.cont)[Len(Refs(heap.cont))]])
